@@ -1,0 +1,133 @@
+//go:build verif
+
+package pdf
+
+import (
+	"bytes"
+	"io"
+	"sort"
+)
+
+// Verification hooks for property C05 (add-only, build tag verif): they
+// expose the unexported scanner buffer operations and the cross-reference
+// stream checks to the harness in /verif/harness/c05.  They contain no logic
+// of their own beyond calling the functions under test and copying results.
+
+// VerifC05Op is one scanner call: "W" SkipWhiteSpace, "I" the digit run of
+// ReadInteger (ScanBytes), "P" PeekN(N), "B" ReadByte, "K" PeekN(N) followed
+// by pos += N when N bytes were available.
+type VerifC05Op struct {
+	Kind string
+	N    int
+}
+
+// VerifC05Obs is what one scanner call showed.
+type VerifC05Obs struct {
+	Err  error
+	Pos  int64
+	Data []byte
+}
+
+// VerifC05Scan runs the operations on a fresh scanner over r.  After every
+// operation step(i) is called (the harness uses it for its watchdog).
+func VerifC05Scan(r io.Reader, ops []VerifC05Op, step func(int)) []VerifC05Obs {
+	s := newScanner(r, nil, nil)
+	var res []VerifC05Obs
+	for i, op := range ops {
+		var o VerifC05Obs
+		switch op.Kind {
+		case "W":
+			o.Err = s.SkipWhiteSpace()
+		case "I":
+			first := true
+			o.Err = s.ScanBytes(func(b byte) bool {
+				if first && (b == '+' || b == '-') {
+					// ok
+				} else if b >= '0' && b <= '9' {
+					// ok
+				} else {
+					return false
+				}
+				first = false
+				return true
+			})
+		case "P":
+			buf, err := s.PeekN(op.N)
+			o.Err = err
+			o.Data = append([]byte(nil), buf...)
+		case "B":
+			b, err := s.ReadByte()
+			o.Err = err
+			if err == nil {
+				o.Data = []byte{b}
+			}
+		case "K":
+			buf, err := s.PeekN(op.N)
+			o.Err = err
+			if len(buf) == op.N {
+				s.pos += op.N
+			} else {
+				o.Data = append([]byte(nil), buf...)
+			}
+		}
+		o.Pos = s.CurrentPos()
+		res = append(res, o)
+		if step != nil {
+			step(i)
+		}
+	}
+	return res
+}
+
+// VerifC05XRefEntry is one decoded cross-reference stream entry (the fields of
+// xRefEntry).
+type VerifC05XRefEntry struct {
+	Num        uint32
+	InStream   uint32
+	Pos        int64
+	Generation uint16
+}
+
+// VerifC05ReadXRefStream runs checkXRefStreamDict and decodeXRefStream on the
+// given dictionary, raw length and decoded data, starting from an empty table.
+// checked reports whether the dictionary check passed; err is the error of
+// the check or of the decode loop.
+func VerifC05ReadXRefStream(dict Dict, rawLen int64, data []byte) (entries []VerifC05XRefEntry, checked bool, err error) {
+	w, ss, err := checkXRefStreamDict(dict, rawLen)
+	if err != nil {
+		return nil, false, err
+	}
+	xref := make(map[uint32]*xRefEntry)
+	err = decodeXRefStream(xref, bytes.NewReader(data), w, ss)
+	for num, e := range xref {
+		entries = append(entries, VerifC05XRefEntry{Num: num, InStream: e.InStream.Number(), Pos: e.Pos, Generation: e.Generation})
+	}
+	sort.Slice(entries, func(i, j int) bool { return entries[i].Num < entries[j].Num })
+	return entries, true, err
+}
+
+// VerifC05XRefSize returns the number of entries of the reader's
+// cross-reference table.
+func VerifC05XRefSize(r *Reader) int {
+	return len(r.xref)
+}
+
+// VerifC05XRefRefs returns the references of the cross-reference table that
+// are in use, in increasing order of object number, at most max of them.
+func VerifC05XRefRefs(r *Reader, max int) []Reference {
+	nums := make([]uint32, 0, len(r.xref))
+	for num, e := range r.xref {
+		if !e.IsFree() {
+			nums = append(nums, num)
+		}
+	}
+	sort.Slice(nums, func(i, j int) bool { return nums[i] < nums[j] })
+	if len(nums) > max {
+		nums = nums[:max]
+	}
+	res := make([]Reference, len(nums))
+	for i, num := range nums {
+		res[i] = NewReference(num, r.xref[num].Generation)
+	}
+	return res
+}
